@@ -2,6 +2,7 @@ package c15
 
 import (
 	"fmt"
+	"math/big"
 	"strings"
 	"testing"
 
@@ -34,16 +35,16 @@ var exhSHA = exhCfg{
 	values:  [2][]byte{{0x01}, {0x02, 0x03}},
 }
 
-// MiMC: names shorter than a block (left-padded by Write); values = one canonical block (q-1) and a short value.
-var exhMiMC = exhCfg{
-	names:   []string{"a", "b", "c"},
-	unknown: "d",
-	values: [2][]byte{
-		// q-1 for bn254 fr, big endian
-		{0x30, 0x64, 0x4e, 0x72, 0xe1, 0x31, 0xa0, 0x29, 0xb8, 0x50, 0x45, 0xb6, 0x81, 0x81, 0x58, 0x5d,
-			0x28, 0x33, 0xe8, 0x48, 0x79, 0xb9, 0x70, 0x91, 0x43, 0xe1, 0xf5, 0x93, 0xf0, 0x00, 0x00, 0x00},
-		{0x07, 0x08, 0x09},
-	},
+// exhField: algebraic hashes. Names shorter than a block (left-padded by Write); values = one canonical
+// block (q-1) and a short value.
+func exhField(h hashKind) exhCfg {
+	qm1 := make([]byte, h.block)
+	new(big.Int).Sub(h.q, big.NewInt(1)).FillBytes(qm1)
+	return exhCfg{
+		names:   []string{"a", "b", "c"},
+		unknown: "d",
+		values:  [2][]byte{qm1, {0x07, 0x08, 0x09}},
+	}
 }
 
 func (c exhCfg) name(i int) string {
@@ -134,8 +135,10 @@ func exhaustive(t *testing.T, h hashKind, c exhCfg, maxLen int) {
 		// every enumerated history is distinct by construction
 		rep.Count(test, h.name+":"+evString(ev), cnt, nt, first[ev])
 	}
+	// one marker per shard so that the digest-size class of this hash shows up for the enumeration, too
+	rep.Count(test, h.digestClass(), 1, 0, fmt.Sprintf("%s (%d-byte digest): histories to length %d", h.name, h.digest, maxLen))
 	rep.Exhaustive(test)
-	rep.Note(test, fmt.Sprintf("%s: all histories of length 0..%d over the 14-symbol alphabet (3 declared names + 1 undeclared, 2 values, 2 mutation events), each closed by 3 rounds of compute-all + mutate-all; sharded %d-way by history index", h.name, maxLen, n))
+	rep.Note(test, fmt.Sprintf("%s: all histories of length 0..%d over the 14-symbol alphabet (3 declared names + 1 undeclared, 2 values, 2 mutation events = append to + overwrite every bound / every returned slice), each closed by 3 rounds of compute-all + mutate-all; sharded %d-way by history index", h.name, maxLen, n))
 	t.Logf("shard %d/%d: %d histories, max length %d", k, n, total, maxLen)
 }
 
@@ -146,12 +149,21 @@ func TestC15_Exhaustive(t *testing.T) {
 		}
 		h := h
 		t.Run(h.name, func(t *testing.T) {
+			// depth: SHA-256 6 (thorough 7), MiMC/bn254 4 (5); the other members of the hash family (digest sizes
+			// 20..64 bytes) get a shorter depth: byte-stream hashes 4 (5), algebraic hashes 3 (4)
+			cfg, depth := exhSHA, rep.Scale(4, 5)
+			if h.field() {
+				cfg, depth = exhField(h), rep.Scale(3, 4)
+			}
 			switch h.name {
 			case "sha256":
-				exhaustive(t, h, exhSHA, rep.EnvInt("VERIF_C15_LEN", rep.Scale(6, 7)))
+				depth = rep.EnvInt("VERIF_C15_LEN", rep.Scale(6, 7))
 			case "mimc":
-				exhaustive(t, h, exhMiMC, rep.EnvInt("VERIF_C15_LEN_MIMC", rep.Scale(4, 5)))
+				depth = rep.EnvInt("VERIF_C15_LEN_MIMC", rep.Scale(4, 5))
+			default:
+				depth = rep.EnvInt("VERIF_C15_LEN_MORE", depth)
 			}
+			exhaustive(t, h, cfg, depth)
 		})
 	}
 }
